@@ -32,7 +32,9 @@ def main(argv):
     metas = [json.load(open(os.path.join(seeded.SEEDED, d, "meta.json"))) for d in sorted(os.listdir(seeded.SEEDED))]
     valid = [m for m in metas if m.get("confirmed", {}).get("valid_seed")]
     caught = [m for m in valid if m["confirmed"].get("detected_by")]
-    summary = (f"{len(metas)} seeded changes, {len(valid)} confirmed as valid seeds (demo passes before, fails after, suite still passes), "
+    first = [m for m in metas if m.get("detected_at_first_attempt", True)]
+    summary = (f"{len(metas)} seeded changes ({len(first)} of them detected the first time their check was run against them; the others led to "
+               f"the changes of the machinery listed below), {len(valid)} confirmed as valid seeds (demo passes before, fails after, suite still passes), "
                f"{len(caught)} of them detected by the quick tier of the named check at the time of the last verification "
                f"(the column shows the first bucket reported).")
     text = block(text, "SEEDED-TABLE", summary + "\n\n" + rows)
